@@ -84,7 +84,11 @@ fn draw_name(d: &Draw, root: &str) -> String {
     let seps = ["/", "\\", "//", "\\/", "/./", "\\\\"];
     let abs_outer = format!("{root}/outer/");
     let abs_served = format!("{root}/outer/served/");
-    let prefixes: [&str; 9] = ["", "/", "\\", "//", "../", "..\\", "C:\\", &abs_outer, &abs_served];
+    // absolute spellings with one and two leading separators (a server that strips only one is fooled by the second)
+    let abs_outer2 = format!("/{root}/outer/");
+    let abs_evil2 = format!("\\{root}/outer/served-evil/");
+    let abs_evil = format!("{root}/outer/served-evil/");
+    let prefixes: [&str; 12] = ["", "/", "\\", "//", "../", "..\\", "C:\\", &abs_outer, &abs_served, &abs_outer2, &abs_evil2, &abs_evil];
     if d.chance("name.plausible", 1, 3) {
         // names of files that exist (or may be created), spelled in various ways
         let base = d.pick("name.base", &["pub.txt", "sub/inner.txt", "x", "new.txt", "sub/new2.txt", "old.txt", "sub"]);
